@@ -505,12 +505,19 @@ SCANNERS = {
     "text-loc": (["t", "b", "l", "r", "c", "tl", ":", "5", "-3", "50%", " ", "x"],
                  [""], '<rect wh="5" text="x" text-loc="%s"/>'),
     "expr": (["1", "-", ".5", "+", "*", "/", "%", "(", ")", ",", "$v", "$u", "${v}", "#a~w", "'s'", "abs", "random",
-              "eq", "and", " ", "x", "{{", "}}"],
+              "eq", "and", " ", "x", "{{", "}}", "$", "$\u00e9", "${\u65e5\u672c}", "$v\u00e9", "#\u00e9~w", "\u00e9"],
              ["", "1 "], '<rect id="a" wh="5"/><var v="3"/><rect wh="{{%s}}"/>'),
-    "var-subst": (["$", "{", "}", "v", "u", "\\", "$v", "${", "{{", "}}", " ", "1"],
+    "var-subst": (["$", "{", "}", "v", "u", "\\", "$v", "${", "{{", "}}", " ", "1", "\u00e9", "\U0001F600"],
                   [""], '<var v="3"/><text text="%s"/>'),
-    "loop-attrs": (["1", "-1", "0.5", "$v", "{{", "}}", "(", ")", "x", " ", "1e9", "nan", "inf"],
+    "loop-attrs": (["1", "-1", "0.5", "$v", "{{", "}}", "(", ")", "x", " ", "1e9", "nan", "inf", "$\u00e9", "${\u00df}"],
                    [""], '<var v="2"/><loop count="%s"><rect wh="1"/></loop>'),
+    # attributes that reach the expression tokenizer without the variable pre-pass
+    "if-test": (["1", "0", "$v", "$u", "${v}", "$\u00e9", "${\u65e5}", "$", "eq", "(", ")", ",", " ", "-", "x", "\u00e9", "{{", "}}", "'s'"],
+                [""], '<var v="2"/><if test="%s"><rect wh="1"/></if>'),
+    "loop-while": (["1", "0", "$v", "$\u00e9", "${\u00df}", "lt", "(", ")", ",", " ", "x", "\u00e9", "{{", "}}"],
+                   [""], '<var v="2"/><loop while="%s"><var v="0"/><rect wh="1"/></loop>'),
+    "for-data": (["1", ",", " ", "$v", "$\u00e9", "${\u65e5}", "'a'", "(", ")", "x", "\u00e9", "{{", "}}", "-"],
+                 [""], '<var v="2"/><for var="q" data="%s"><rect wh="1"/></for>'),
 }
 
 
@@ -563,7 +570,8 @@ def func_cases(ctx, tier):
 # ------------------------------------------------------------------------------------------
 # stream 4: structure-aware mutation
 
-DICT = [b"#a", b"^", b"|h", b"|V 3", b"@tl", b"@t:50%", b"~w", b"{{", b"}}", b"$x", b"${x}", b"{{$x+1}}", b"&amp;", b"&#10;",
+DICT = ["$\u00e9".encode(), "${\u65e5\u672c}".encode(), "#\u00e9".encode(), "{{$\u00df + 1}}".encode(), "\u00e9".encode(), "\U0001F600".encode(),
+        b"#a", b"^", b"|h", b"|V 3", b"@tl", b"@t:50%", b"~w", b"{{", b"}}", b"$x", b"${x}", b"{{$x+1}}", b"&amp;", b"&#10;",
         b"&lt;", b"<!--", b"-->", b"<![CDATA[", b"]]>", b"<?pi x?>", b"<g>", b"</g>", b"<svg>", b"</svg>", b"<rect wh=\"1\"/>",
         b"<reuse href=\"#a\"/>", b"<use href=\"#a\"/>", b"<loop count=\"3\">", b"</loop>", b"<if test=\"1\">", b"</if>",
         b"<var x=\"$x$x\"/>", b"<specs>", b"</specs>", b"<defaults>", b"</defaults>", b"<for var=\"i\" data=\"1,2\">",
